@@ -11,6 +11,24 @@ TB = ("Coq 8.16.1 kernel (+vm_compute); no axioms of our own (Print Assumptions 
       "tied by regeneration/correspondence on the cases run")
 
 CHECKS = {
+    "C10": dict(
+        engine="E3 arith",
+        technique="Coq proof by induction over literal expression trees that the model of front/constred.c agrees bit-for-bit with the run-time semantics written from back/vmexec.c; three-leg correspondence (real reducer vs fold, real VM vs rt_eval, literal-vs-variable metamorphic pairs on the real code)",
+        text="proof: fold_agrees_with_runtime (for every tree whose cells have an opcode), fold_literal_is_runtime_value, fold_total, run_never_traps; statements the faithful model violates are proved as _refuted with witnesses and are known findings (division by zero rejected under short-circuit/conditional although never evaluated; enum comparison cells without opcode; enum INT_MIN / -1 in the folder); tie: the folded literal is read back from the dumped bytecode, the VM result from probe programs with operands in variables, exhaustive over operator x admitted type pairs, corner + random values",
+        ref="DESIGN.md §5 C10",
+        note=TB + "; excluded as C UB and stated in evidence: out-of-range float->int, shift counts >= width; enumred.c not modelled"),
+    "C11": dict(
+        engine="E3 arith",
+        technique="Coq proofs over regenerated finite tables (promotion / assignment conversion / opcode selection: forallb by vm_compute lifted with forallb_forall) and over all values (wrap ring homomorphism, truncating division incl. MIN / -1, two's-complement bit operations, exact int<->long and float<->double conversions on SpecFloat); value probes on the real VM compared by bit pattern",
+        text="proof: binary_result_is_join, assignment_converts_to_left, opcode_matches_type over tables regenerated from the tree's typechecker+emitter on every run (exhaustive: every operator class x ordered type pair), and value-level theorems for all operand values; tie: ~10^4 one-expression probe programs per run (corner values, halfway cases, denormals, NaN, random) on the real VM, results compared bit-for-bit with the extracted operations",
+        ref="DESIGN.md §5 C11",
+        note=TB + "; IEEE conformance of Coq.Floats.SpecFloat is Flocq's theorem (cited, not re-proved); number formatting (Fmt.v) is tied by correspondence only"),
+    "C15": dict(
+        engine="E2 api",
+        technique="Coq proofs over all API histories of an abstract embedding-API machine (stack neutrality, repeatability, VM independence) with the instruction-level VM as a Section variable; API-history correspondence and fresh-process replay oracles on the real library under ASan",
+        text="proof for the VM part: execute_stack_neutral, execute_uses_no_more_stack_than_first, execute_repeatable, vms_independent over every finite history; which policy (pop at HALT, restore on error) the tree implements is probed on the real VM on every run; compile determinism/isolation lives in C globals of flex/bison/utils.c that no Gallina model expresses and is decided by correspondence only: the k-th compile/execute in a random history must equal a fresh process's",
+        ref="DESIGN.md §5 C15",
+        note=TB + "; `exec` (the instruction-level run of the entry stub) is a parameter of the model: its frame discipline is C07's theorem"),
     "C04": dict(
         engine="E1 gc",
         technique="Coq proofs on the collector model: reachable cells preserved with identical objects, every path from the roots reads the same values, and schedule transparency of a path-addressed mutator language (any two collection schedules and heap sizes give equal observations); forced-schedule differential + heap audit on the real VM (hook H2) under ASan",
